@@ -46,6 +46,7 @@ RULE += (' Also: synchronous mappings whose values are awaitable jobs handed to 
 RULE += (' Also: all / any / min / tuple / sorted / nsmallest / dropwhile / filterfalse / filter(None) / chain.from_iterable / iter(callable, sentinel) / scoped_iter / borrow / anext over large synchronous inputs and over items that are awaitable jobs.')
 RULE += (' Also: comparisons (==, <) of user keys answering with awaitable objects: only their truth value is used (iter with sentinel, groupby, max, sorted).')
 RULE += (' Also: expression objects whose sum is an awaitable expression (sum); classes with an async __call__ used as callables (their instances are results).')
+RULE += (' Also: accumulate (default addition) over expression objects whose sums are awaitable.')
 ASSUMPTIONS = ["a loop that checks identity of every token and reply is at least as strict as any real event loop",
                "C functions called from asyncstdlib code are visible to sys.monitoring CALL events"]
 EXHAUSTIVE = {"quick": False, "thorough": False}
@@ -141,7 +142,7 @@ def cases(tier, seed, shard, nshards):
                      "enter_payload", "enter_generator", "zip_longest_payload_fill"):
             yield {"kind": "generator-callable", "tool": tool}
         for tool in ("iter_sentinel", "groupby", "groupby_nokey", "max_key", "sorted_key", "sum_expressions",
-                     "sum_expressions_start", "map_class_with_async_call", "starmap_class_with_async_call",
+                     "sum_expressions_start", "accumulate_expressions", "accumulate_expressions_initial", "map_class_with_async_call", "starmap_class_with_async_call",
                      "sorted_key_class_with_async_call"):
             yield {"kind": "awaitable-comparison", "tool": tool}
         for tool in MAPPING_TOOLS:
@@ -1298,7 +1299,7 @@ def run_awaitable_comparison(case, stats):
             async for _, group in gb:
                 sizes.append(len(await A.list(group)))
             return sizes == [2, 2, 1]
-        if tool in ("sum_expressions", "sum_expressions_start"):
+        if tool in ("sum_expressions", "sum_expressions_start", "accumulate_expressions", "accumulate_expressions_initial"):
             # lazy expression objects: adding two of them gives another one - a value that happens to be awaitable
             class Expr(AwaitablePayload):
                 def __add__(self, other):
@@ -1306,6 +1307,12 @@ def run_awaitable_comparison(case, stats):
 
                 __radd__ = __add__
 
+            if tool == "accumulate_expressions":
+                sums = await A.list(A.accumulate([Expr(1), Expr(2), Expr(3)]))
+                return [type(x) for x in sums] == [Expr] * 3 and sums[-1].k == ("sum", ("sum", 1, 2), 3)
+            if tool == "accumulate_expressions_initial":
+                sums = await A.list(A.accumulate([1, 2], initial=Expr(0)))
+                return [type(x) for x in sums] == [Expr] * 3 and sums[-1].k == ("sum", ("sum", 0, 1), 2)
             if tool == "sum_expressions":
                 total = await A.sum([Expr(1), Expr(2), Expr(3)])
                 return isinstance(total, Expr) and total.k == ("sum", ("sum", ("sum", 1, 0), 2), 3)
